@@ -70,6 +70,30 @@ def _regs(o):
     return [int(x) for x in rvgen.parse_snap(o)["regs"].split(",")]
 
 
+def _custom_range_layout(text, decls, mem):
+    """'From the first data address': the same text assembled into a state whose data memory starts somewhere else (the public
+    `memory=` argument of the architectural state) must lay the variables out from THAT address."""
+    if not decls:
+        return None
+    try:
+        from architecture_simulator.uarch.riscv.riscv_architectural_state import RiscvArchitecturalState
+        from architecture_simulator.uarch.memory.memory import Memory, AddressingType
+        from architecture_simulator.isa.riscv.riscv_parser import RiscvParser
+    except Exception:
+        return None
+    for lo in (0x8000, 0x100):
+        st = RiscvArchitecturalState(memory=Memory(AddressingType.BYTE, 32, True, range(lo, 2**32)))
+        try:
+            RiscvParser().parse(text, st)
+        except Exception as e:
+            return Failure("oracle", PROP, f"with a data memory starting at {lo:#x} the program is rejected ({type(e).__name__}) -- {text!r}", "asm:custom-range")
+        got = {int(a): int(v) for a, v in st.memory.memory_file.items()}
+        want = {a - rvasmgen.DATA + lo: v for a, v in mem.items()}
+        if {a: v for a, v in got.items() if v} != {a: v for a, v in want.items() if v}:
+            return Failure("oracle", PROP, f"with a data memory starting at {lo:#x} the variables are not laid out from that address -- {text!r}", "asm:custom-range")
+    return None
+
+
 def oracle(c):
     fails = []
     k = c.meta["kind"]
@@ -127,6 +151,9 @@ def oracle(c):
                     v = regs[rs]
                     for i in range(n):
                         M[a + i] = (v >> (8 * i)) & 0xFF
+        f = _custom_range_layout(c.meta["text"], decls, mem)
+        if f is not None:
+            return [f]
         got = _regs(c.impl_out[4])
         d = rvgen.parse_snap(c.impl_out[4])
         gm = {int(p.split(":")[0]): int(p.split(":")[1]) for p in d["mem"][5:].split(",") if p}
